@@ -97,12 +97,23 @@ def c18_grid():
     return out
 
 
+def attempt(fn, *a, **kw):
+    try:
+        return fn(*a, **kw)
+    except Exception as e:   # describing a real function must not fail
+        return e
+
+
 def norm_info(d):
     return {'positional': tuple(d['positional']), 'required': tuple(d['required']), 'optional': dict(d['optional']),
             'varargs': d['varargs'], 'kwargs': d['kwargs']}
 
 
 def check_desc(ctx, m, exp, route, head, mech=None):
+    if isinstance(m, BaseException):
+        ctx.ev()
+        ctx.violation('describing-raised', {'route': route, 'def': head, 'error': repr(m)}, mechanism=mech, abort=False)
+        return
     got = norm_info(m.getSignatureInfo())
     ctx.ev()
     ctx.count('descriptions[%s]' % route)
@@ -110,7 +121,7 @@ def check_desc(ctx, m, exp, route, head, mech=None):
     if not set(got['required']) <= set(got['positional']):
         problems.append('required-not-subset-of-positional')
     if problems:
-        mechanism = None
+        mechanism = mech
         if set(problems) <= {'varargs', 'kwargs'} and ('*, ' in head or '*args, k' in head or ', k0' in head):
             mechanism = 'kwonly_shifts_star_names'
         if route == 'abc' and problems == ['required'] or (route == 'abc' and set(problems) <= {'required', 'required-not-subset-of-positional'}):
@@ -154,6 +165,14 @@ def run_c18(ctx, rng, job):
         check_desc(ctx, fromMethod(bound), expb, 'fromMethod-bound', heads)
         check_desc(ctx, fromMethod(fs), expb, 'fromMethod-function', heads)
         check_desc(ctx, fromFunction(fs, imlevel=1), expb, 'fromFunction-imlevel1', heads)
+        # (2b) methods that take their instance through *args (no named self)
+        if g['varargs'] and g['posonly'] == 0 and g['req'] == 0 and g['dflt'] == 0:
+            fi_, headi = mkfunc('meth', vname=vname, kname=kname, **g)
+            Ci = type('Ci', (object,), {'meth': fi_})
+            boundi = Ci().meth
+            expi = expected_info(inspect.signature(boundi))
+            check_desc(ctx, attempt(fromMethod, boundi), expi, 'fromMethod-implicit-self', headi, mech='implicit_self_negative_index')
+            check_desc(ctx, attempt(fromFunction, fi_, imlevel=1), expi, 'fromFunction-imlevel1-implicit-self', headi, mech='implicit_self_negative_index')
         # (3) ABC route
         A = abc.ABCMeta('Gen%d' % idx, (object,), {'meth': fs})
         IA = ABCInterfaceClass('IGen%d' % idx, (ABCInterface,), {'abc': A, '__module__': util.fresh_module()})
@@ -286,6 +305,15 @@ def run_c17(ctx, rng, job):
             bad = [s for s in shapes if not binds(sig, s)]
             expected = [(BrokenMethodImplementation, 'm')] if bad else []
             ctx.count('signature_pairs')
+            if form != 'function-on-instance' and gm['req'] == 0 and gm['dflt'] == 0 and gm['varargs']:
+                # the same implementation written without a named self: def m(*args[, **kw])
+                impl2, hm2 = mkfunc('m', req=0, dflt=0, varargs=True, kwargs=gm['kwargs'])
+                C2 = type('CandI', (object,), {'m': impl2})
+                classImplements(C2, I)
+                cand2 = C2() if form == 'bound-method' else C2
+                ctx.count('implicit_self_pairs')
+                check_verify(ctx, fn, I, cand2, False, expected,
+                             {'form': form + '-implicit-self', 'interface': hi, 'implementation': hm2})
             ctx.count('pairs_rejected' if bad else 'pairs_accepted')
             check_verify(ctx, fn, I, cand, False, expected,
                          {'form': form, 'interface': hi, 'implementation': hm, 'unbindable_shapes': [list(map(str, s)) for s in bad[:3]]})
